@@ -249,7 +249,7 @@ def run_c20(rep, tier, seed):
         else:
             rep.count("fault_not_reached")
         rep.cov["traces_validated_against_impl"] += 1
-        # correspondence with the fault-aware Lean model (Store/FaultModel.lean) for faults on the put / delete path
+        # correspondence with the fault-aware Lean models (Store/FaultModel.lean: put / delete path; Store/MergeFault.lean: merge pass)
         if not probs and len(a2) == ln:
             fl = next((i for i, x in enumerate(a2) if any(c.startswith("!") for c in calls_of(x))), None)
             kind = None
@@ -267,6 +267,10 @@ def run_c20(rep, tier, seed):
                     kind = "fsync"
                 elif bad.startswith("!open"):
                     kind = "create"
+            elif fl is not None and tags[fl][0] == "op" and h.ops[tags[fl][1]][0] == "merge":
+                # a call of a merge pass fails (Store/MergeFault.lean, `mergeF true`): its index among the calls the pass issues
+                cs = calls_of(a2[fl])
+                kind = f"merge {next(i for i, c in enumerate(cs) if c.startswith('!'))} 0"
             if fl is None or kind is not None:
                 ml, mp = [], []
                 for i, l in enumerate(lines):
@@ -291,8 +295,14 @@ def run_c20(rep, tier, seed):
                     ia = strip_trace(a2[i])
                     if "retry-" in ia:
                         ia = "ok"
-                    if ia != mans[j]:
-                        probs.append(("the fault-aware model and the real store disagree after the fault", i, mans[j], ia, None, "correspondence"))
+                    ma = mans[j]
+                    if lines[i] == "merge" and fl is not None:
+                        # in a run with a fault only success / failure of a merge pass is compared (the harness derives `sel=` and
+                        # `order=` from the active id before the pass, which a pending move makes stale; the error kind, io or
+                        # serialization, depends on which layer met the failing call); what the keys read is compared line by line
+                        ia, ma = ia.split(" ")[0], ma.split(" ")[0]
+                    if ia != ma:
+                        probs.append(("the fault-aware model and the real store disagree after the fault", i, ma, ia, None, "correspondence"))
                         break
         for p in probs:
             if p[4] is not None:
